@@ -218,7 +218,7 @@ fn grow(r: &RBox, rel: f64) -> RBox {
 
 pub fn run(tier: Tier) -> Report {
     let rep = Report::new("C08", tier);
-    rep.set_rule("[also: area of the polygon returned by the public method a.sutherland_hodgman_clip(b) for every pair] box pairs = centre offsets on a dyadic lattice (quick 21x21 step 0.5, thorough 41x41 step 0.25) x (w,h) in sizes^2 for both boxes x angle menu for both boxes, plus identical / nested / edge-sharing / touching families, plus the same pairs far from the origin (1e4), plus 400 pairs x 36 preparations in which a box had its polygon generated (gen_vertices) and was then moved / turned / resized in place or cloned (must equal freshly constructed boxes bit for bit); every pair: intersection area and IoU against an independent f64 convex clipper (closed form when axis-aligned), range, symmetry, identity, absent iff disjoint, too_far soundness, joint translation / rotation invariance, axis-aligned closed form. Non-trivial = reference intersection positive by margin.");
+    rep.set_rule("[also: area of the polygon returned by the public method a.sutherland_hodgman_clip(b) for every pair] box pairs = centre offsets on a dyadic lattice (quick 21x21 step 0.5, thorough 41x41 step 0.25) x (w,h) in sizes^2 for both boxes x angle menu for both boxes, plus identical / nested / edge-sharing / touching families, plus the same pairs far from the origin (1e4), plus boxes a few units across at map coordinates (4e5 .. 1e7, offsets in multiples of the f32 grid spacing there), plus 400 pairs x 36 preparations in which a box had its polygon generated (gen_vertices) and was then moved / turned / resized in place or cloned (must equal freshly constructed boxes bit for bit); every pair: intersection area and IoU against an independent f64 convex clipper (closed form when axis-aligned), range, symmetry, identity, absent iff disjoint, too_far soundness, joint translation / rotation invariance, axis-aligned closed form. Non-trivial = reference intersection positive by margin.");
     rep.assume("reference clipper engine/src/geom.rs; overlap decisions asserted only when the reference area exceeds 1e-6 of the smaller box");
     let ctx = Ctx { rep: &rep, evals: AtomicU64::new(0), nontrivial: AtomicU64::new(0), undecided: AtomicU64::new(0) };
     let angles: Vec<Option<f32>> = {
@@ -265,6 +265,26 @@ pub fn run(tier: Tier) -> Report {
             }
         }
     });
+    // map / mosaic coordinates: boxes a few units across at coordinates of 4e5 .. 1e7 (the f32 grid there is
+    // 0.03 .. 1 wide: box edges do not lie on it, so every intermediate has to be taken in f64); offsets are
+    // multiples of the grid spacing
+    for &(cx, cy, sp) in &[(1e7f32, 1e7f32, 1.0f32), (448250.0, 5411900.0, 0.5), (-2097152.0, 1048576.0, 0.25)] {
+        for &(w, h) in &[(3.0f32, 3.0f32), (1.5, 4.5), (6.0, 2.0)] {
+            for &aa in &[None, Some(0.0f32), Some(0.3)] {
+                for &ba in &[None, Some(0.0f32), Some(-0.5)] {
+                    let a = mkbox(cx, cy, aa, w, h);
+                    for i in -3..=3i32 {
+                        for j in -3..=3i32 {
+                            let b = mkbox(cx + i as f32 * sp, cy + j as f32 * sp, ba, w, h);
+                            check_pair(&ctx, &a, &b, false);
+                            let b2 = mkbox(cx + i as f32 * sp, cy + j as f32 * sp, ba, h, w);
+                            check_pair(&ctx, &a, &b2, false);
+                        }
+                    }
+                }
+            }
+        }
+    }
     // families: identical, nested, edge-sharing, touching; sizes 0.1 .. 1e3
     let fam_sizes: Vec<f32> = vec![0.1, 1.0, 37.5, 1000.0];
     let fam_angles: Vec<Option<f32>> = vec![None, Some(0.0), Some(PI / 6.0), Some(0.5236), Some(PI / 4.0), Some(PI / 2.0), Some(1.0), Some(-PI / 3.0), Some(2.0 * PI + PI / 6.0), Some(2.678_774_8)];
